@@ -81,6 +81,12 @@ func run16(t *testing.T, cs OnceCase) *ev.Verdict {
 	v.Canon = string(canon)
 	c, berr := sched.Run(t, []string{"once.lock", "memo.enter", "promise.set", "promise.set.mid"}, cs.Sched, func(c *sched.Ctl) { body16(c, cs, v) })
 	v.Trace = c.Trace()
+	if c.Prio {
+		v.Class("priority-schedule")
+	}
+	if c.Mix {
+		v.Class("uniform-decisions")
+	}
 	if c.StepLimit && len(v.Viol) == 0 {
 		v.Add(P, "once:spins", "a caller keeps looping without blocking (step limit exceeded)")
 	}
